@@ -1,7 +1,7 @@
 (* C19_Final.v — the theorems of C19 in the form stated in props/C19.v: quantified over the oracle
    functions erf / erfinv under the explicit hypothesis bundle [erf_hyps]. *)
 From Coq Require Import Reals ZArith List Lra Lia Bool.
-From GS Require Import Num Loops C19_Model C19_RInst C19_Proofs.
+From GS Require Import Num Loops C19_Model C19_RInst C19_Proofs C19_Discrete.
 Import ListNotations.
 Open Scope R_scope.
 
@@ -93,4 +93,22 @@ Section Final.
        boxcox_normalize O lmbda (array_boxcox_elem O lmbda shift x) = x + shift /\
        array_boxcox_elem O lmbda shift x = boxcox_denormalize O lmbda (x + shift)).
   Proof. apply boxcox_inverts_normalizer. Qed.
+
+  Lemma F_equal_thresholds m v n : 0 < v ->
+    (forall i, (0 < i < n)%nat -> ncdf erf m v (equal_threshold O m v n i) = INR i / INR n) /\
+    (forall i j, (0 < i)%nat -> (i < j)%nat -> (j < n)%nat ->
+       equal_threshold O m v n i < equal_threshold O m v n j) /\
+    (forall i, (0 < i)%nat -> (S i < n)%nat ->
+       ncdf erf m v (equal_threshold O m v n (S i)) - ncdf erf m v (equal_threshold O m v n i) = 1 / INR n).
+  Proof. apply equal_thresholds_quantiles; assumption. Qed.
+
+  Lemma F_binary g divide upper lower mean sill data :
+    let d := opt_or divide mean in
+    let u := opt_or upper (mean + sqrt sill) in
+    let l := opt_or lower (mean - sqrt sill) in
+    array_fn O g (MBinary divide upper lower) mean sill data
+      = Ok (map (fun x => if Rle_dec x d then l else u) data) /\
+    (divide = None -> upper = None -> lower = None -> 0 < sill ->
+       ncdf erf mean sill d = / 2 /\ (l + u) / 2 = mean /\ ((l - mean) ^ 2 + (u - mean) ^ 2) / 2 = sill).
+  Proof. apply binary_split; assumption. Qed.
 End Final.
